@@ -54,7 +54,7 @@ import (
 // Where eps is the machine epsilon.
 //
 // iwork must have length n, work must have length at least max(1, lwork), and
-// lwork must be -1 or greater than zero, otherwise Dggsvp3 will panic.
+// lwork must be -1 or at least max(3*n+1, m, p), otherwise Dggsvp3 will panic.
 //
 // Dggsvp3 is an internal routine. It is exported for testing purposes.
 func (impl Implementation) Dggsvp3(jobU, jobV, jobQ lapack.GSVDJob, m, p, n int, a []float64, lda int, b []float64, ldb int, tola, tolb float64, u []float64, ldu int, v []float64, ldv int, q []float64, ldq int, iwork []int, tau, work []float64, lwork int) (k, l int) {
